@@ -109,6 +109,26 @@ DISCOVERY8 = ("Run-time dispatch is discovered the same way (nothing of it on th
               "string literals of the file that reads it; when it asks for GOMAXPROCS / NumCPU, on 1, 3, 6 and 7 CPUs; when it uses finalizers, cleanups or weak pointers, under back-to-back collections; when it has more unsafe pointer "
               "operations than the pinned tree's single cast, with -d=checkptr; when a file is constrained to a Go release newer than the default toolchain, with go1.26.8.")
 
+# additions of validation round 10 (DESIGN.md 10.4 a10)
+FIRSTUSE = ("8 goroutines make the simultaneous FIRST calls of every accessor and operation on fresh key objects (250 rounds quick; the goroutines start at the same accessor, another one every round), "
+            "a panic in any of them is a violation, the results are then overwritten by their owners and the accessors read again")
+ROUND10 = {
+    "C01": "Also: wide strings whose once-folded value hi*c + lo lands on a carry boundary of the second fold (just below / above 2^256, or above it by 2^64k - [1, c]); GOARCH=386 in the quick tier.",
+    "C02": "Also: GOARCH=386 in the quick tier.",
+    "C03": "Also: GOARCH=386 in the quick tier.",
+    "C04": "Also: GOARCH=386 in the quick tier.",
+    "C05": "Also: " + FIRSTUSE + ".",
+    "C06": "Also: aliases x+p and y+p of VALID coordinates drawn from the whole gap [0, 2^256-p) with classes after the limbs of p (around 977, 2^32, 2^32+976, powers of two), in every decoder and constructor.",
+    "C07": "Also: " + FIRSTUSE + ".",
+    "C08": "Also: " + FIRSTUSE + ".",
+    "C10": "Also: " + FIRSTUSE + "; the point / scalar / buffer passed to a constructor is destroyed by the caller afterwards and the key checked again; coordinate aliases from the whole gap (as C06).",
+    "C11": "Also: " + FIRSTUSE + ".",
+    "C12": "Also: BIP-66 strings cut anywhere with the outer length made consistent and the last byte a boundary value; every S-length octet 0..255 with 0..2 bytes of S present.",
+    "C13": "Also: " + FIRSTUSE + "; x-only keys x+p for x from the whole gap.",
+    "C14": "Also: " + FIRSTUSE + "; the point passed to NewSchnorrPublicKeyFromPoint is destroyed by the caller afterwards and the key checked again.",
+    "C16": "Also: GOARCH=386 in the quick tier.",
+}
+
 PENDING_REASON = "not claimed yet: monitor under construction in this round (the technique applies; see DESIGN.md section 5)"
 
 
@@ -133,6 +153,12 @@ def main():
     for pid, add in ROUND8.items():
         if pid in CHECKS and add not in CHECKS[pid]["text"]:
             CHECKS[pid] = dict(CHECKS[pid], text=CHECKS[pid]["text"] + " " + add)
+    for pid, add in ROUND10.items():
+        if pid in CHECKS and add not in CHECKS[pid]["text"]:
+            CHECKS[pid] = dict(CHECKS[pid], text=CHECKS[pid]["text"] + " " + add)
+    for pid in ("C05", "C07", "C08", "C10", "C11", "C13", "C14"):
+        if pid in CHECKS and "concurrent first use" not in CHECKS[pid]["tech"]:
+            CHECKS[pid] = dict(CHECKS[pid], tech=CHECKS[pid]["tech"] + "; concurrent first use of fresh objects from barrier-released goroutines against a sequential twin")
     for pid in ("C01", "C02"):
         if pid in CHECKS and "concurrent replay" not in CHECKS[pid]["tech"]:
             CHECKS[pid] = dict(CHECKS[pid], tech=CHECKS[pid]["tech"] + "; concurrent replay of a hot operand set against precomputed model results (plain and yield-instrumented builds)")
